@@ -38,7 +38,9 @@ HOSTILE = ['"abc', "'", '"""', "(", ")", "[", "]", "1...", "...", "…", "--1", 
            # a second line
            "utf-16", "utf-32", "DD.DD", "hh:hh", "\\\nid < 3",
            # nested deeper than the regular expression parser recurses
-           "(" * 600 + "a" + ")" * 600]
+           "(" * 600 + "a" + ")" * 600,
+           # in range, but with more digits than the decimal context carries; what the csv module calls its quoting modes
+           "1,5" + "0" * 30, "1.5" + "0" * 30, "nonnumeric", "strings", "notnull"]
 RULE_TEXT = (
     "fault enumeration: sweep of (base CID or data table, row, column, hostile value) single-cell replacements (see "
     "sweep_note) plus seeded scenarios with two hostile cells at once or one container fault (truncate / bitflip / "
@@ -60,7 +62,7 @@ COMPONENTS = {
              "fnmatch", "decimal", "time.strptime", "csv", "codecs", "zipfile", "zlib", "ElementTree", "xlrd"],
     "stub": ["SimFS/SimRaw", "peers", "fault injector"],
 }
-PROBES_REQUIRED = ["writer-phase", "target:cid-cell", "target:data-cell", "target:cid-file", "target:data-file", "fault:truncate",
+PROBES_REQUIRED = ["base-accepted:delimited", "base-accepted:quoted", "base-accepted:fixed", "base-accepted:excel", "base-accepted:ods", "writer-phase", "target:cid-cell", "target:data-cell", "target:cid-file", "target:data-file", "fault:truncate",
                    "fault:bitflip", "fault:undecodable", "fault:open-quote", "fault:short-record", "pair", "fixture:xls",
                    "fixture:ods", "fixture:xlsx", "outcome:interface-error", "outcome:data-error", "outcome:accepted",
                    "main-ran"]
@@ -75,7 +77,7 @@ BASES = {
                 ["d", "header", "1"], ["d", "allowed characters", "32:255"], ["d", "decimal separator", ","],
                 ["d", "thousands separator", "."], ["d", "quoting", "minimal"], ["d", "skip initial space", "false"],
                 ["", "a comment row"],
-                ["f", "id", "42", "", "1:5", "Integer", "0:99999"], ["f", "amount", "1,5", "X", "", "Decimal", "0:9999,99"],
+                ["f", "id", "42", "", "1:5", "Integer", "0:99999"], ["f", "amount", "1,5", "X", "", "Decimal", "0:9999.99"],
                 ["f", "color", "red", "", "", "Choice", "red, green"], ["f", "kind", "k", "", "1", "Constant", "k"],
                 ["f", "day", "31.12.1999", "", "10", "DateTime", "DD.MM.YYYY"], ["f", "code", "ab", "", "", "Pattern", "a*"],
                 ["f", "word", "aab", "", "", "RegEx", "a+b"], ["f", "note", "x", "X", "0:10", "Text", ""],
@@ -168,6 +170,9 @@ def _sweep_cases():
         cases = []
         for base_name in BASE_NAMES:
             base = BASES[base_name]
+            # the base as it is, without any fault: it has to load and to accept its data (probe base-accepted:<name>),
+            # otherwise every fault planted into it would only ever meet the error the base has anyway
+            cases.append((base_name, "none", 0, 0, 0))
             for row_index, row in enumerate(base["cid"]):
                 for column in range(8):
                     for value_index in range(len(HOSTILE)):
@@ -195,6 +200,10 @@ def sweep_size(tier):
 
 def sweep_slice(tier, start, count):
     for base_name, target, row_index, column, value_index in _sweep_cases()[start:start + count]:
+        if target == "none":
+            yield {"property": ID, "sweep": True, "base": base_name, "io": {"regime": "whole"}, "cells": [],
+                   "container": None, "cid_storage": "rows"}
+            continue
         if target in ("flip", "cut"):
             yield {"property": ID, "sweep": True, "base": base_name, "io": {"regime": "whole"}, "cells": [],
                    "cid_storage": "rows",
@@ -515,6 +524,8 @@ def execute(scenario):
                         result.probe("writer-phase")
                 if not leaks and all(event[3] == "ok" for event in history.events if event[2].startswith(("rows", "validate"))):
                     result.probe("outcome:accepted")
+                    if not scenario["cells"] and not container:
+                        result.probe("base-accepted:" + base_name)
             if cid_path is not None:
                 status, code, error = _call_main(["cutplace", cid_path, data_path])
                 history.add("sut", "main", [status, code])
@@ -526,7 +537,9 @@ def execute(scenario):
                 elif status == "system-exit" and code != 2:
                     leaks.append(("main", RuntimeError("SystemExit(%r)" % (code,))))
     result.nontrivial = True
-    if scenario.get("sweep") and scenario["cells"]:
+    if scenario.get("sweep") and not scenario["cells"] and not container:
+        result.schedule_sig = [base_name, "unchanged"]
+    elif scenario.get("sweep") and scenario["cells"]:
         cell = scenario["cells"][0]
         result.schedule_sig = [base_name, cell["target"], cell["row"], cell["column"], cell["value"]]
     elif scenario.get("sweep"):
